@@ -510,7 +510,7 @@ def emit_ins(fn, bn, s, edge, nva, decl):
             if maythrow: after = ' if (verif_exn) { %s } else { %s }' % (edge(bn, mm.group(2)), edge(bn, mm.group(1)))
         elif EH and nm == '__cxa_throw': return 'verif_exn = (char*)(%s); ' % args[0][1] + zero_ret(fn)
         elif maythrow: after = ' if (verif_exn) { %s }' % zero_ret(fn)
-        if nm.startswith('llvm.lifetime') or nm.startswith('llvm.experimental.noalias') or nm.startswith('llvm.dbg'): return ';' + after
+        if nm.startswith('llvm.assume') or nm.startswith('llvm.lifetime') or nm.startswith('llvm.experimental.noalias') or nm.startswith('llvm.dbg'): return ';' + after
         if nm.startswith('llvm.memcpy') or nm.startswith('llvm.memmove'): return 'memmove(%s, %s, %s);' % (args[0][1], args[1][1], args[2][1]) + after
         if nm.startswith('llvm.memset'): return 'memset(%s, %s, %s);' % (args[0][1], args[1][1], args[2][1]) + after
         def vaof(v):
